@@ -46,6 +46,9 @@ func (x *Exec) model(fn *ssa.Function, name string) modelFn {
 	if m := x.strModels(fn, name); m != nil {
 		return m
 	}
+	if m := x.timeModels(fn, name); m != nil {
+		return m
+	}
 	// logging and metrics: A1 effect-free
 	if isLogOrMetric(name) {
 		if strings.Contains(name, "glog.Fatal") || strings.Contains(name, "glog.Exit") {
